@@ -1,4 +1,5 @@
 pub mod exact;
+pub mod gen;
 pub mod lp;
 pub mod pwl;
 pub mod runner;
